@@ -18,7 +18,9 @@ from engine import observe
 def transform_ops(n):
     """index-dependent menu of transformations for a table of n rows (simplest first)"""
     ops = [('slice', 1, None), ('slice', None, -1), ('step2',), ('rev',), ('mask', 'alt'), ('mask', 'none'), ('mask', 'all'),
-           ('fancy', 'rep'), ('fancy', 'empty'), ('save',), ('cat_tu',), ('cat_ut',)]
+           ('fancy', 'rep'), ('fancy', 'empty'), ('save',), ('cat_tu',), ('cat_ut',), ('write',)]
+    # ('write',): writing is also an explored operation, not only an observation: it compacts the lazy buffer of t in
+    # place (hidden state) and must not disturb the saved register u or later operations on t
     return ops
 
 
@@ -116,6 +118,8 @@ class Model:
         elif k == 'cat_ut':
             self.t = list(self.u) + list(self.t)
             self.index_only = False
+        elif k == 'write':
+            pass
         elif k == 'replace':
             j = self.fields.index(op[1])
             vals = replacement_values(self.kinds[j], len(self.t))
@@ -137,10 +141,14 @@ class Model:
         return (tuple(self.t), None if self.u is None else tuple(self.u), self.index_only)
 
 
-def apply_impl(t, u, op, fields, kinds):
+def apply_impl(t, u, op, fields, kinds, buffer_type=None):
     """apply a transformation to implementation registers; returns (t, u)"""
     import bionumpy as bnp
     k = op[0]
+    if k == 'write':
+        from bionumpy.io.parser import NpBufferedWriter
+        NpBufferedWriter(io.BytesIO(), buffer_type).write(t)
+        return t, u
     if k in ('slice', 'step2', 'rev', 'mask', 'fancy'):
         return t[index_for(op, len(t))], u
     if k == 'save':
